@@ -128,6 +128,13 @@ func Random(rng *rand.Rand, c RandomCfg) []Input {
 			haveNHG[o.NI] = append(haveNHG[o.NI], o.Key)
 		}
 		if rng.Intn(100) < c.BadPct {
+			// malformed operations preferably name a key that is likely installed
+			if o.Kind == "nh" && len(haveNH[o.NI]) > 0 && rng.Intn(2) == 0 {
+				o.Key = haveNH[o.NI][rng.Intn(len(haveNH[o.NI]))]
+			}
+			if o.Kind == "nhg" && len(haveNHG[o.NI]) > 0 && rng.Intn(2) == 0 {
+				o.Key = haveNHG[o.NI][rng.Intn(len(haveNHG[o.NI]))]
+			}
 			cs := abs.BadClasses(o.Kind, o.Typ)
 			o.Bad = cs[rng.Intn(len(cs))]
 		}
